@@ -1,6 +1,7 @@
 // mkoverlay writes a `go build -overlay` file that (1) adds the scheduler shim as the virtual package
 // <repo>/verifshim/vsync and (2) replaces every non-test file of the given repo packages that imports "sync" by
-// a copy whose import is rewritten to the shim. /repo itself is not touched.
+// a copy whose import is rewritten to the shim, and (3) adds a file to hc's log package that turns every log
+// statement into a scheduling point. /repo itself is not touched.
 //
 //	mkoverlay <repo> <shim source> <outdir> <pkgdir>...
 package main
@@ -26,6 +27,14 @@ func main() {
 	shimCopy := filepath.Join(out, "vsync.go")
 	die(os.WriteFile(shimCopy, b, 0644))
 	repl[filepath.Join(repo, "verifshim", "vsync", "vsync.go")] = shimCopy
+	// every log statement of the library becomes a scheduling point: a file ADDED to hc's log package
+	if ly, err := os.ReadFile(filepath.Join(filepath.Dir(filepath.Dir(shim)), "logyield", "logyield.go.txt")); err == nil {
+		if _, err := os.Stat(filepath.Join(repo, "log")); err == nil {
+			lyCopy := filepath.Join(out, "log_verif_yield.go")
+			die(os.WriteFile(lyCopy, ly, 0644))
+			repl[filepath.Join(repo, "log", "verif_yield_overlay.go")] = lyCopy
+		}
+	}
 	n := 0
 	for _, pkg := range os.Args[4:] {
 		dir := filepath.Join(repo, pkg)
